@@ -53,10 +53,19 @@ LEVEL_TEXT = (
     "handlers purges the leftover records PRESENT (one PATCH + its echo, else nothing). The former guards' witnesses are kept as "
     "regressions of the OLD turn `loopStepOld`: blind_witness (C03-F2, repaired by 423b86f), free_witness (C03-N4, repaired by 40d09eb). "
     "PARTIAL, each with the exact guard in its statement and a proved witness "
-    "that the guard is needed, replayed on the real code through the corpus: completed_against_final_partial under 'the handler has not finished yet when the final state "
-    "arrives' — absorbed_change_witness (OPEN C03-F4); shared_id_witness: one id registered for update and delete, the finished "
-    "update record is taken for the deletion handler's (OPEN C03-N3; the model mirrors the code, `all_selected_completed` is stated "
-    "per ID, so only the oracle, which looks at the CALLS of the deletion handler, sees it); terminates_stable_partial is "
+    "that the guard is needed, replayed on the real code through the corpus: completed_against_final_partial under 'the handler has not finished yet — by a record "
+    "of ITS OWN, one the pass takes over (`vis`) — when the final state arrives' — absorbed_change_witness (OPEN C03-F4). The second former "
+    "witness (C03-N3: one id registered for update and delete, the finished update record taken for the deletion handler's) is REPAIRED "
+    "by f7d6401 and the model follows: the handling pass is C02's `cycleB` (pass_is_cycleB: the namesakes' records are left out of the "
+    "loaded state; `Env.boundH` says which selected handlers are declared for the cause), every theorem (termination, ranking function, "
+    "failure budget, final_state, converges, restart_safe) is re-proved over the records TAKEN OVER, the guard of "
+    "completed_against_final_partial no longer counts a namesake's finished record, and shared_id_regression shows the witness handled "
+    "(before: nothing invoked, object gone; now: `h` invoked with retry 0, completes in the closing pass, then the release). What "
+    "f7d6401 LOST is namesake_children_leak_witness (OPEN C03-N7, new): the namesake's record is left out with its subrefs, the records of "
+    "its sub-handlers survive every purge on an object that lives on (held by a foreign finalizer); all hypotheses of `converges` hold — "
+    "its conclusion speaks of the owned ids; the oracle, which looks at every annotation, sees it. OPEN C03-N8 (= C11-F6; oracle only: "
+    "the sub-handlers of a function stacked for update + delete inherit the update's children records, a deletion sub-handler is never "
+    "called; Lean side in C02: namesake_children_inherit_witness). terminates_stable_partial is "
     "`terminates` transported under the guard FiltersStable (filters do not read what the framework writes; "
     "filtersStable_of_essence gives the sufficient condition 'filters read the essence only') — unstable_filters_witness: a "
     "deletion handler whose filter reads the framework's own finalizer makes the loop add and remove it for ever (replayed on the "
@@ -78,7 +87,7 @@ LEVEL_TEXT = (
     "operator's cycles; repaired by 30557a0). "
     "Repaired in /repo and kept as regressions: C03-F1 (2ae938f), C03-F2 (423b86f), C03-F3 (d1b2dc4), C03-F5 (1c8f3dd, finalizer "
     "functions only — the rest was C03-N2, 608a57d + 02af7ce), C03-F7 (7224f57), C03-N1 "
-    "(b7bf39c, sleeping_handler_woken_instance), C03-N4 (40d09eb), C03-N6 (30557a0), 5dff3c1 (lost echo + constant on.event result). C03-F6 (name-addressed patches "
+    "(b7bf39c, sleeping_handler_woken_instance), C03-N3 (f7d6401, shared_id_regression), C03-N4 (40d09eb), C03-N6 (30557a0), 5dff3c1 (lost echo + constant on.event result). C03-F6 (name-addressed patches "
     "after delete+recreate) lies in C08's part and is found by the oracle only; C03-N5 (a graceful stop that never finished: an "
     "observation on C19/C20's ground found by these histories, = C20-F8) is repaired by ab6fb15 and kept as a regression. 'A further event causes no write' reads "
     "`writes + cp env`: with a constant patch one request per event is sent, changing nothing. ORACLE/TIE ONLY: changes made while "
@@ -92,7 +101,8 @@ THEOREMS = [("Kopf.Props.C03", "Kopf.C03." + n) for n in [
     "converges", "converges_finitely_failing", "deletion_converges", "deletion_converges_finitely_failing",
     "all_selected_completed", "completed_against_final_partial", "absorbed_change_witness",
     "open_pass_leaves_event", "sleeping_handler_woken_instance", "invoked_once_after_last_change", "restart_safe",
-    "accumulated_change", "blind_purges", "blind_witness", "free_purges", "free_witness", "shared_id_witness",
+    "accumulated_change", "blind_purges", "blind_witness", "free_purges", "free_witness", "shared_id_regression",
+    "pass_is_cycleB", "namesake_children_leak_witness",
     "carried_none", "carried_noop_comes_back", "carried_ops_leaves_event", "carried_converges",
     "carried_noop_witness", "carried_noop_blocks_release_witness",
     "inconsistent_empty", "inconsistent_nonempty_revisited", "inconsistent_converges", "inconsistent_nonempty_witness",
@@ -100,7 +110,7 @@ THEOREMS = [("Kopf.Props.C03", "Kopf.C03." + n) for n in [
     "pass_ignores_unselected_records", "deselected_unfinished_instance", "terminates_stable_partial", "unstable_filters_witness", "filtersStable_of_essence"]]
 RULE = ("seeded histories of one object: 1-4 change handlers (create/update/resume/delete, label filters, retries/timeout/backoff/"
         "errors, scripts with finitely many temporary/arbitrary/permanent failures then ok, handlers that take time (8 %), ONE id "
-        "registered for two causes (6 %), three lifecycles), 0-6 external ops (spec edits, reverts, label flips, annotation edits, "
+        "registered for two causes (10 %; histogram namesake_record_not_inherited), three lifecycles), 0-6 external ops (spec edits, reverts, label flips, annotation edits, "
         "status-only edits, bursts, delete(+recreate), graceful stop / kill / kill right before or right after the server applied "
         "the next PATCH, each with a downtime with or without edits, lost requests/responses, a foreign edit followed by a watch "
         "stream cut at once (undelivered echoes lost; re-watch or 410 + re-list)), echo delays, watch reconnects every 32 s (8 %), "
@@ -138,7 +148,13 @@ ASSUMPTIONS = ["GUARD FiltersStable: selection / prematch / finalizer requiremen
                "finding C03-F2, repaired by 423b86f). Likewise for an object in deletion that only others hold (formerly C03-N4, "
                "repaired by 40d09eb)",
                "progress records live in annotations (the default storage); StatusProgressStorage / SmartProgressStorage and "
-               "sub-handlers, when= filters, field= filters with value=/old=/new= are not generated (C16's, C13's, C15's subjects)",
+               "sub-handlers (but for the corpus witnesses N7, N8), when= filters, field= filters with value=/old=/new= are not generated "
+               "(C16's, C13's, C15's subjects)",
+               "`Env.boundH` (is the handler selected under this id for this cause declared for the cause: on.create/update/delete — or a "
+               "mix-in: resuming, field) is read off the decorators' gates as the implementation reports them (`decls`, C05's gate) for the "
+               "registrations that pass gate and match; ONE id registered for two causes is generated with the same filters and limits "
+               "for both registrations (one function, stacked decorators); an id registered with AND without a reason (on.resume + "
+               "on.create on one function, where `_deduplicated` keeps the first) is not generated",
                "`memory.remaining_patch` (transformation functions carried over after a rejected JSON-patch): how a patch comes to "
                "be carried is C08's transport and not in the model; what a cycle that STARTS with one does is (`loopStepC`: the "
                "handlers are skipped; it is re-sent, or — a no-op — nothing is sent and the object is touched after a zero delay "
@@ -198,6 +214,8 @@ SIG_N4 = {"site": "process_resource_causes", "shape": "object marked for deletio
 SIG_N5 = {"site": "watching.streaming_block", "shape": "graceful stop never finishes: the watcher's cancellation is swallowed (stop requested while the watcher leaves its streaming block after a 410)"}
 SIG_N6 = {"site": "process_resource_causes", "shape": "cycle still awaiting the version of its own last write, with a non-empty patch that brings no event: the wait for the consistency deadline is skipped, the handlers are skipped, no event follows — handling never resumes"}
 SIG_F4 = {"site": "process_changing_cause", "shape": "handler finished on an older state of a still-open cycle is not re-run for the newer state, yet last-handled becomes the newer state"}
+SIG_N7 = {"site": "process_changing_cause", "shape": "namesake's record left out with its subrefs: the records of its sub-handlers are never purged"}
+SIG_N8 = {"site": "subhandling.execute", "shape": "one function registered for two causes runs sub-handlers: a sub-handler of the current cause inherits the finished record of its namesake's sub-handler and is never called"}
 
 
 # ---- independent readings ---------------------------------------------------------------------------
@@ -441,7 +459,7 @@ def oracle(ctx: Ctx, sc: dict, tr: dict) -> dict:
     def fail(what: str, replay: Any, signature: dict, about: tuple | None = None, tag: str | None = None) -> None:
         """Report a failure; ONLY a failure that the content of a cross-uid write explains (it put that record / that
         last-handled state onto this object) is reported as the consequence of that write (C03-F6)."""
-        if signature not in (SIG_F2, SIG_F4, SIG_N1, SIG_N2, SIG_N3, SIG_N6) and f.cross_explains(about):
+        if signature not in (SIG_F2, SIG_F4, SIG_N1, SIG_N2, SIG_N3, SIG_N6, SIG_N7, SIG_N8) and f.cross_explains(about):
             ctx.oracle_fail(what + " [after a write computed for the deleted predecessor landed on this object]",
                             {**replay, "cross_uid_writes": [[r["wall"], r["cycle_uid"], r["target_uid"], r.get("payload")] for r in f.cross_uid[:3]]},
                             SIG_F6)
@@ -519,7 +537,39 @@ def oracle(ctx: Ctx, sc: dict, tr: dict) -> dict:
                 fail(f"the object was released although its deletion handler {h['id']} never reached a final outcome",
                      {**rep, "last_body": lb}, {"site": "process_resource_causes", "shape": "released before the deletion handlers completed"},
                      about=("deletion", kid(h)))
+        # … and so has every sub-handler a deletion handler registered while it ran for the deletion ("every handler
+        # selected for the outstanding change has completed": sub-handlers without criteria are selected with their parent)
+        dcyc = [c for c in tr["cycles"] if c["uid"] == f.uid and c.get("pcc") and c["pcc"]["reason"] == "delete"
+                and c["body"]["metadata"].get("deletionTimestamp")]
+        registered: dict[str, dict] = {}
+        for c in dcyc:
+            for reg in c.get("sub_registered") or []:
+                for sid in reg["subs"]:
+                    registered.setdefault(f"{reg['parent_hid']}/{sid}", {"parent": reg["parent"], "first": c})
+        for cid, info in registered.items():
+            done = any(call["uid"] == f.uid and (call.get("hid") or call["id"]) == cid and call.get("reason") == "delete"
+                       and call.get("outcome") in ("ok", "perm") for call in tr["calls"])
+            if done:
+                continue
+            good = False
+            rec0 = own_record(info["first"]["body"], cid)
+            stacked = len({g["kind"] for g in _changing(sc) if g["id"] == info["parent"]}) > 1
+            if stacked and rec0 and (rec0.get("success") or rec0.get("failure")) and rec0.get("purpose") not in (None, "delete"):
+                fail(f"the object was released although the deletion sub-handler {cid} was never called: its parent's id is also "
+                     f"registered for another cause, whose sub-handler's finished record (purpose {rec0.get('purpose')}) was taken for it",
+                     {**rep, "record_at_registration": rec0}, SIG_N8, tag="C03-N8")
+            else:
+                fail(f"the object was released although the deletion sub-handler {cid} never reached a final outcome",
+                     {**rep, "last_body": lb}, {"site": "process_resource_causes", "shape": "released before the deletion sub-handlers completed"},
+                     about=("deletion", cid))
         return good
+
+    def namesake_child(hid: str) -> bool:
+        """A sub-handler id whose parent id stands for several registrations (one function stacked for several causes)."""
+        if "/" not in hid:
+            return False
+        parent = hid.rsplit("/", 1)[0]
+        return len({g["kind"] for g in _changing(sc) if kid(g) == parent}) > 1
 
     def held_while_marked() -> bool:
         return any(v["body"]["metadata"].get("uid") == f.uid and v["body"]["metadata"].get("deletionTimestamp")
@@ -566,8 +616,14 @@ def oracle(ctx: Ctx, sc: dict, tr: dict) -> dict:
         ann = f.final["metadata"].get("annotations") or {}
         left = [h for h in _all_ids(sc) if OWN_PREFIX + h.replace("/", ".") in ann]
         for h in left:
-            fail(f"progress record of handler {h} remains on the object marked for deletion and held by a foreign finalizer only",
-                 {**rep, "annotations": sorted(ann), "finalizers": fins}, SIG_N4, about=("record", h), tag="C03-N4")
+            if namesake_child(h):
+                fail(f"progress record of sub-handler {h} remains on the object marked for deletion and held by a foreign finalizer "
+                     f"only: its parent's id is registered for several causes; the parent's record that referenced it was left out "
+                     f"(with its subrefs) when the namesake started from scratch",
+                     {**rep, "annotations": sorted(ann), "finalizers": fins}, SIG_N7, about=("record", h), tag="C03-N7")
+            else:
+                fail(f"progress record of handler {h} remains on the object marked for deletion and held by a foreign finalizer only",
+                     {**rep, "annotations": sorted(ann), "finalizers": fins}, SIG_N4, about=("record", h), tag="C03-N4")
             out["class"] = "records-left"
         return out
 
@@ -613,7 +669,9 @@ def oracle(ctx: Ctx, sc: dict, tr: dict) -> dict:
                 sel_ever |= set(c["pcc"]["selected"])
         hr = [c for c in f.fin_cycles if c.get("pcc") and c["pcc"]["reason"] in KINDS]
         for h in left:
-            if f.blind:
+            if namesake_child(h) and not f.blind:
+                sig, tag = SIG_N7, "C03-N7"
+            elif f.blind:
                 sig, tag = SIG_F2, "C03-F2"
             elif h.split("/")[0] in sel_ever or h in sel_ever:
                 sig, tag = {"site": "process_changing_cause", "shape": "progress record of a handler selected for the final state remains"}, None
@@ -1104,7 +1162,7 @@ def gen_scenario(rng: Any, i: int) -> dict:
                 default = ["sleep", d, "ok"]
             fail_time += d * (len(script) + 1)
         handlers.append({"kind": kind, "id": f"{kind[0]}{k}", "opts": opts, "script": script, "default": default, "record_body": True})
-    if rng.random() < 0.06 and any(h["kind"] in ("create", "update") for h in handlers):
+    if rng.random() < 0.1 and any(h["kind"] in ("create", "update") for h in handlers):
         # stacked registration: ONE id registered for two causes (e.g. @on.update + @on.delete on one function)
         h0 = rng.choice([h for h in handlers if h["kind"] in ("create", "update")])
         k2 = rng.choice(["delete", "delete", "update" if h0["kind"] == "create" else "create"])
@@ -1469,6 +1527,13 @@ def _evaluate(ctx: Ctx, scenarios: list[dict], tie: bool = True) -> None:
                          and p["P"][h].get("purpose") in (None, p["reason"])]
                 if stale:
                     ctx.count("unselected_unfinished_same_purpose", f"{p['reason']}: closed={bool(p.get('closed'))}")
+                # passes in which a selected handler that is declared for the cause finds its NAMESAKE's record under its id
+                # (one id registered for several causes): not taken over since /repo f7d6401
+                for d in p.get("decls") or []:
+                    r0 = p["P"].get(d["id"])
+                    if d["id"] in p["selected"] and d["gate"].get("reason") == p["reason"] and r0 and r0.get("purpose") not in (None, p["reason"]):
+                        ctx.count("namesake_record_not_inherited", f"{r0.get('purpose')} -> {p['reason']}: "
+                                  f"{'finished' if r0['success'] or r0['failure'] else 'unfinished'}")
         if o.get("field_selected"):
             ctx.count("field_handlers_selected_for_the_outstanding_change", o["field_selected"])
         for k in kinds:
